@@ -334,7 +334,10 @@ def exact_dft_matrix(n):
     """DFT twiddles exp(-2*pi*i*j*k/n) as exact (re, im) pairs of Sym/ints.
     n in 1,2,4,8. sqrt(1/2) is a fresh algebraic constant r with r>0, r*r=1/2."""
     if n not in (1, 2, 4, 8):
-        raise HarnessError(f"exact DFT only for lengths 1,2,4,8 (got {n})")
+        # other lengths: twiddles are uninterpreted complex constants TW(n, m) = "exp(-2 pi i m / n)"; an `unsat` then
+        # holds for every value of them (in particular the true ones), different lengths get different symbols
+        base = [(1, 0)] + [(Sym(z3.Real(f'TWr_{n}_{m}')), Sym(z3.Real(f'TWi_{n}_{m}'))) for m in range(1, n)]
+        return [[base[(j * k) % n] for j in range(n)] for k in range(n)]
     if n == 8:
         r = _root_half()
         base = [(1, 0), (r, -r), (0, -1), (-r, -r), (-1, 0), (-r, r), (0, 1), (r, r)]
@@ -364,7 +367,9 @@ def sym_fft(x, n=None, axis=-1):
         n = x.shape[axis]
     xm = np.moveaxis(x, axis, -1)
     if xm.shape[-1] < n:
-        raise HarnessError("zero-padded FFT not modelled")
+        pad = np.empty(xm.shape[:-1] + (n - xm.shape[-1],), dtype=object)
+        pad[...] = 0
+        xm = np.concatenate([xm, pad], axis=-1)
     xm = xm[..., :n]
     M = exact_dft_matrix(n)
     out = np.empty(xm.shape, dtype=object)
